@@ -626,12 +626,14 @@ class PathResult(object):
         self.aborted = aborted
 
 
-def explore(fn, ctx_obj=None, max_paths=2000, wall_s=None, on_path=None):
+def explore(fn, ctx_obj=None, max_paths=2000, wall_s=None, on_path=None, profile_repo=True):
     """Run fn() repeatedly until every feasible path has been executed.
 
     fn takes the Ctx; it creates its symbols (deterministically), runs the
     real code and calls ctx.prove(...) for its obligations.  Returns a dict
-    with the list of PathResult and exhaustion flag."""
+    with the list of PathResult and exhaustion flag.  On the first path the
+    functions of the repository that execute are recorded (sys.setprofile)."""
+    import sys as _sys, os as _os
     c = ctx_obj or Ctx()
     old = _ctx
     set_ctx(c)
@@ -639,6 +641,13 @@ def explore(fn, ctx_obj=None, max_paths=2000, wall_s=None, on_path=None):
     results = []
     t0 = time.time()
     exhausted = True
+    functions = set()
+    repo = _os.environ.get('PYTOUGH_REPO', '/repo')
+    def prof(frame, event, arg):
+        if event == 'call':
+            co = frame.f_code
+            if co.co_filename.startswith(repo):
+                functions.add('%s:%s' % (_os.path.basename(co.co_filename), co.co_name))
     try:
         while pending:
             if len(results) >= max_paths or (wall_s and time.time() - t0 > wall_s):
@@ -647,12 +656,16 @@ def explore(fn, ctx_obj=None, max_paths=2000, wall_s=None, on_path=None):
             prefix = pending.pop()
             c.reset(prefix)
             outcome = 'ok'
+            first = profile_repo and not results
+            if first: _sys.setprofile(prof)
             try:
                 ret = fn(c)
                 if ret is not None: outcome = ret
             except EngineAbort as ex:
                 outcome = 'abort: %s' % ex
                 if not c.aborted: c.aborted = str(ex)
+            finally:
+                if first: _sys.setprofile(None)
             c.stats['paths'] += 1
             pending.extend(c.new_pending)
             pr = PathResult(list(c.decisions), outcome, c.failures, c.unknowns,
@@ -663,4 +676,4 @@ def explore(fn, ctx_obj=None, max_paths=2000, wall_s=None, on_path=None):
         set_ctx(old)
     return dict(paths=results, exhausted=exhausted and not pending,
                 pending=len(pending), stats=c.stats, wall_s=time.time() - t0,
-                ctx=c)
+                ctx=c, functions=sorted(functions))
